@@ -415,9 +415,11 @@ def compile_values(lang_, text, logical, envs):
     d = tempfile.mkdtemp(prefix='lv_c06_')
     try:
         if lang_ == 'f':
-            lines = ['program p', '  implicit none', '  integer(kind=8) :: a, b, c, n, k, x']
+            # default integers (all intermediate values were checked to stay below 2**30): intrinsics such as
+            # max(a, 3) need arguments of one kind under -std=f2008
+            lines = ['program p', '  implicit none', '  integer :: a, b, c, n, k, x']
             for env in envs:
-                lines += ['  %s = %d_8' % (v, env[v]) if env[v] >= 0 else '  %s = -%d_8' % (v, -env[v]) for v in ALLVARS]
+                lines += ['  %s = %d' % (v, env[v]) for v in ALLVARS]
                 lines.append('  print *, ' + ('merge(1, 0, %s)' % text if logical else text))
             lines.append('end program p')
             src = os.path.join(d, 'p.f90'); open(src, 'w').write('\n'.join(lines) + '\n')
@@ -446,7 +448,7 @@ class C06(Property):
     imports = ['Base.Expr', 'models.M_C06']
     theorem_file = 'theories/props/T_C06.v'
     parallel = True
-    shard = 150
+    shard = 300
     rule = ('random expression trees (sum/product/quotient/power/unary minus as python -1 or IntLiteral(-1)/negative literals/intrinsic '
             'calls/comparisons/.and./.or./.not., with and without Parenthesised* classes, depth<=6): raw random trees, the same trees with '
             'exactly the needed nodes marked parenthesised, trees produced by the real SubstituteExpressions (variable replaced by a sum / '
@@ -489,7 +491,7 @@ class C06(Property):
             c['envs'] = [{v: rng.randint(*rng.choice([(-6, 6), (1, 4)])) for v in ALLVARS} for _ in range(8)]
         else:
             c['envs'] = pick_envs(rng, tree)
-        if tier != 'quick' and rng.random() < 0.04: c['compile'] = True
+        if tier != 'quick' and rng.random() < 0.03: c['compile'] = True
         return c
 
     def _edge(self, rng):
@@ -520,7 +522,7 @@ class C06(Property):
         return rng.choice(pool)
 
     def generate(self, rng, tier):
-        n = 2600 if tier == 'quick' else 40000
+        n = int(os.environ.get('LOKI_VERIF_C06_N', '0')) or (1200 if tier == 'quick' else 6000)
         for _ in range(n):
             r = rng.random()
             depth = rng.choice([1, 2, 2, 3, 3, 4, 4, 5, 6])
@@ -588,7 +590,13 @@ class C06(Property):
     def run_impl(self, case):
         from loki.backend.fgen import fgen
         from loki.backend.cgen import cgen
-        e = self._tree_of(case)
+        try:
+            e = self._tree_of(case)
+        except ZeroDivisionError:
+            # simplify() evaluates literal sub-expressions and raises on a literal division by zero: no tree is
+            # produced, so there is nothing to print (simplify's own behaviour belongs to C08)
+            if 'simplify' not in case: raise
+            return {'tree': ['?', 'simplify', 'ZeroDivisionError'], 'unrepresentable': True}
         tree = BE.structure(e)
         out = {'tree': tree}
         if '"?"' in json.dumps(tree):
